@@ -113,6 +113,19 @@ def _check_evaluator(ctx, pv, pomdp, As, Ns, ini, tag):
         raise
     except Exception as e:
         raise Violation('exception', f"{tag}: exact evaluation raised {type(e).__name__}: {e}")
+    # second input form of the same evaluator: node transitions that do not depend on the action, given as p(n'|n,o)
+    try:
+        N3 = np.ascontiguousarray(Ns[:, 0])
+        N4 = np.repeat(N3[:, None, :, :], Ns.shape[1], axis=1)
+        v3 = ev(pomdp, torch.tensor(As), torch.tensor(N3)).state_controller_value.detach().numpy()
+        v4 = ev(pomdp, torch.tensor(As), torch.tensor(N4)).state_controller_value.detach().numpy()
+    except (Violation, Inconclusive):
+        raise
+    except Exception as e:
+        raise Violation('exception', f"{tag}: exact evaluation of an action-independent node strategy raised {type(e).__name__}: {e}")
+    ctx.check(np.allclose(v3, v4, rtol=1e-7, atol=1e-8), 'evaluator-consistent',
+              lambda: f"{tag}: the evaluation of p(n'|n,o) given in its 3-dimensional form {v3.tolist()} differs from the same strategy repeated over the actions {v4.tolist()}",
+              key='evaluator-consistent/3d-form')
     oo = [pv.oid[o] for o in pomdp.observation_list]
     ref_end = fsc_value(pv, As, Ns, end_on_absorbing=True, obs_order=oo)
     ref_cont = fsc_value(pv, As, Ns, end_on_absorbing=False, obs_order=oo)
